@@ -916,7 +916,7 @@ def i_CALLI(ins,fmap):
 def i_FCALL(ins,fmap):
     #push ra:
     fmap[sp] = fmap(sp-4)
-    fmap[mem(sp,4)] = fmap(ra)
+    fmap[mem(sp,32)] = fmap(ra)
     #update ra:
     ret_addr = fmap(pc)+4
     fmap[ra] = ret_addr
@@ -925,7 +925,7 @@ def i_FCALL(ins,fmap):
 
 def i_FRET(ins,fmap):
     fmap[pc] = fmap(ra)&0xfffffffe
-    fmap[ra] = fmap(mem(sp,4))
+    fmap[ra] = fmap(mem(sp,32))
     fmap[sp] = fmap(sp+4)
 
 i_FCALLA = i_FCALL
@@ -933,7 +933,7 @@ i_FCALLA = i_FCALL
 def i_FCALLI(ins,fmap):
     #push ra:
     fmap[sp] = fmap(sp-4)
-    fmap[mem(sp,4)] = fmap(ra)
+    fmap[mem(sp,32)] = fmap(ra)
     #update ra:
     ret_addr = fmap(pc)+4
     fmap[ra] = ret_addr
